@@ -51,6 +51,19 @@ def cases(rng, tier, Case):
             continue
         res.append(Case("parse Cs 100 TR %s" % hx("![" + d + "](x)"), "image", {"src": hx(d)}, compare=len(d) < 700))
         res.append(Case("parse Cs 100 TR %s" % hx("> - ![" + d.replace("\n", " ") + "][r]\n\n[r]: /y 't'"), "image-ref", {"src": hx(d)}))
+    # what stands BEFORE the image in the paragraph must not change how its description is read (seed C18-7: delimiter
+    # bookkeeping of the paragraph leaking into the description): descriptions with a known display text behind prefixes
+    # full of unmatched delimiters
+    KNOWN = [("*d*", "d"), ("a **b** _c_", "a b c"), ("x __y__ _z_", "x y z"), ("`c` *e*", "c e"), ("~~s~~ t", "s t"), ("**a *b* c**", "a b c"), ("_u_ [l](v)", "u l")]
+    PREFIXES = ["", "a* b* c* ", "a_ b_ c_ d_ ", "a** b** ", "x~~ y~~ z~~ ", "*a **b ", "_a __b ", "` `` ", "[ [ ", "\\* *x ", "a* b_ c** d__ e~~ ", "*a* b* c* ",
+                "**a b** c** d** ", "![p*](q) r* s* ", "[l*](u) m* n* "]
+    for dsc, want in KNOWN:
+        for pre in PREFIXES:
+            if "`" in pre and "`" in dsc:
+                continue
+            for suf in ("", " z* w*"):
+                d = pre + "![" + dsc + "](x)" + suf
+                res.append(Case("parse Cs 100 TR %s" % hx(d), "prefixed", {"src": hx(dsc), "want_alt": want}))
     return res
 
 
@@ -75,6 +88,10 @@ def oracle(case, io, mo):
     _s.setrecursionlimit(20000)
     f = fields(io)
     html = unhx(f["html"])
+    if "want_alt" in case.params:
+        got = [unescape_strict(m.group(1)) for m in IMG_RE.finditer(html)]
+        if not got or got[-1] != case.params["want_alt"].encode():
+            return "the description %r displays %r but the alt text is %r" % (unhx(case.params["src"]), case.params["want_alt"], got[-1:] )
     nodes = parse_tree(f["tree"])
     tops = [n for n in nodes if n.kind == "Image" and not any(a.kind == "Image" for a in ancestors(n))]
     alts = [unescape_strict(m.group(1)) for m in IMG_RE.finditer(html)]
